@@ -183,7 +183,7 @@ def run_c17(tier):
     part (b): re-configuration while streaming under the controlled scheduler (vsched, electric-fence buffers)."""
     from . import rt
     rep = C.Report('C17', tier)
-    p = subprocess.run(['make', '-s', '-j', str(C.NPROC), '-f', f'{C.V}/engines/seqx/Makefile', f'REPO={C.REPO}', 'FLAVOUR=asan', 'c17'], stdout=subprocess.PIPE, stderr=subprocess.STDOUT, text=True)
+    p = subprocess.run(['make', '-s', '-j', str(C.NPROC), '-f', f'{C.V}/engines/seqx/Makefile', f'V={C.V}', f'REPO={C.REPO}', 'FLAVOUR=asan', 'c17'], stdout=subprocess.PIPE, stderr=subprocess.STDOUT, text=True)
     if p.returncode:
         print(p.stdout[-4000:]); print('BUILD-FAILED'); raise SystemExit(2)
     b = C.bdir('asan')
